@@ -294,10 +294,10 @@ void payload_access(const void* addr, size_t size, bool write) {
       for (int i = 0; i < MAXT && !race; ++i)
         if (i != t->id && s.rclk[i] > t->vc.c[i]) { race = true; other = i; }
       s.wtid = t->id;
-      s.wclk = t->vc.c[t->id] + 1;
+      s.wclk = t->vc.c[t->id];   // current epoch (>= 1); a release publishes it, then starts the next epoch
       memset(s.rclk, 0, sizeof(s.rclk));
     } else {
-      s.rclk[t->id] = t->vc.c[t->id] + 1;
+      s.rclk[t->id] = t->vc.c[t->id];   // 0 = no read yet
     }
     if (race) {
       ++g_races;
